@@ -354,6 +354,11 @@ def _transport_class():
             suds.transport.Transport.__init__(self)
             self.log = []
 
+        def __deepcopy__(self, memo):
+            # Client.clone() deep-copies the option values; like suds' own
+            # HttpTransport this transport says how: a fresh one, own log
+            return RecordingTransport()
+
         def open(self, request):
             raise Exception("the C10 harness never opens URLs: %s" % request.url)
 
@@ -477,28 +482,96 @@ def all_exprs(depth, items_first=True):
     return [p + (s,) for p in itertools.product(heads, repeat=depth - 1) for s in STEPS]
 
 
-def weighted_expr(rng, shape):
-    """A random expression biased towards the ones that select something in
-    this WSDL."""
+def soap_positions(shape, si):
+    return [pi for pi, k in enumerate(shape.services[si]) if k in "AB"]
+
+
+def ops_of(shape, kind):
+    return [op for (op, _a, _s, _n, _e) in MODES[shape.mode][KIND_BINDING[kind]][1]]
+
+
+def pick_key(rng, n, names):
+    """A subscript that selects one of n items (by position, negative position
+    or name); returns (key, position)."""
+    i = rng.randrange(n)
+    r = rng.random()
+    if r < 0.4:
+        return i, i
+    if r < 0.6:
+        return i - n, i
+    return names[i], i
+
+
+def intended_expr(rng, shape, opts):
+    """An expression meant to select something that exists, following the
+    documented rules (only a bias of the generator: the verdict never uses it)."""
     ns = len(shape.services)
-    good_keys = list(range(-ns, ns)) + SVC_NAMES[:ns] + PORT_NAMES + [0, 1, -1]
-    ops = [op for bn in MODES[shape.mode] for (op, _a, _s, _n, _e) in MODES[shape.mode][bn][1]]
+    if ns == 0:
+        return None
+    svc_opt, port_opt, _ = opts
+    steps = []
+    form = rng.choice((0, 1, 1, 2, 2, 2))      # number of subscripts before the operation
+    si = 0
+    passthrough = ns == 1 or svc_opt is not None
+    if svc_opt is not None:
+        if isinstance(svc_opt, int):
+            si = svc_opt if 0 <= svc_opt < ns else (svc_opt + ns if -ns <= svc_opt < 0 else None)
+        else:
+            si = SVC_NAMES.index(svc_opt) if svc_opt in SVC_NAMES[:ns] else None
+        if si is None:
+            return None
+    if ns == 1:
+        si = 0
+    subs = form
+    if not passthrough and subs >= 1:
+        k, si = pick_key(rng, ns, SVC_NAMES)
+        steps.append(("I", k))
+        subs -= 1
+    soap = soap_positions(shape, si)
+    if not soap:
+        return None
+    pj = 0
+    if subs >= 1:
+        k, pj = pick_key(rng, len(soap), [PORT_NAMES[p] for p in soap])
+        steps.append(("I", k))
+        subs -= 1
+    if port_opt is not None:
+        n = len(soap)
+        if isinstance(port_opt, int):
+            pj = port_opt if 0 <= port_opt < n else (port_opt + n if -n <= port_opt < 0 else None)
+        else:
+            names = [PORT_NAMES[p] for p in soap]
+            pj = names.index(port_opt) if port_opt in names else None
+        if pj is None:
+            return None
+    ops = ops_of(shape, shape.services[si][soap[pj]])
+    op = rng.choice(ops) if rng.random() < 0.85 else rng.choice(OPS)
+    if subs >= 1 or rng.random() < 0.25:
+        steps.append(("I", op))
+    else:
+        steps.append(("A", op))
+    return tuple(steps[:3])
 
-    def key():
-        return rng.choice(good_keys) if rng.random() < 0.7 else rng.choice(KEYS)
 
-    def last():
-        r = rng.random()
-        if r < 0.45:
-            return ("A", rng.choice(ops))
-        if r < 0.6:
-            return ("A", rng.choice(ATTR_NAMES))
-        if r < 0.8:
-            return ("I", rng.choice(ops))
-        return ("I", key())
-    d = rng.choice((1, 2, 2, 3, 3, 3))
-    e = [("I", key()) if rng.random() < 0.93 else rng.choice(STEPS) for _ in range(d - 1)]
-    e.append(last())
+def weighted_expr(rng, shape, opts=(None, None, None)):
+    """A random expression: mostly an intended selection, sometimes with one
+    step replaced, sometimes arbitrary."""
+    r = rng.random()
+    e = intended_expr(rng, shape, opts) if r < 0.8 else None
+    if e is None:
+        d = rng.choice((1, 2, 2, 3, 3))
+        return tuple([rng.choice(ITEM_STEPS) for _ in range(d - 1)] + [rng.choice(STEPS)])
+    if r < 0.5:
+        return e
+    e = list(e)
+    i = rng.randrange(len(e))
+    rr = rng.random()
+    if rr < 0.6:
+        e[i] = rng.choice(STEPS)
+    elif rr < 0.8 and len(e) < 3:
+        e.insert(i, rng.choice(ITEM_STEPS))
+    elif len(e) > 1:
+        del e[i]
     return tuple(e)
 
 
@@ -576,7 +649,7 @@ def gen_selections(ck, run):
         sels = [((None, None, None), weighted_expr(rng, sh)) for _ in range(per // 3)]
         for _ in range(per // 6):
             o = weighted_opts(rng, sh)
-            sels += [(o, weighted_expr(rng, sh)) for _ in range(4)]
+            sels += [(o, weighted_expr(rng, sh, o)) for _ in range(4)]
         run.group(sh, sels, "a:shapes")
     # (b) expressions of depth <= 2 exhaustively x options, on the core WSDLs
     d12 = all_exprs(1) + all_exprs(2, items_first=False)
@@ -597,7 +670,7 @@ def gen_selections(ck, run):
                ("SvcA", -1, OVERRIDE), ("zz", None, None), (None, 3, None)]
         if not thorough:
             os_ = os_[:1] + [rng.choice(os_[1:])]
-        exprs = d3 if thorough else rng.sample(d3, len(d3) // 6)
+        exprs = d3 if thorough else rng.sample(d3, len(d3) // 10)
         run.group(sh, [(o, e) for o in os_ for e in exprs], "c:depth 3")
     # (d) WSDLs whose port names an undeclared binding: Client(...) must fail
     for sh in UNLOADABLE:
@@ -846,7 +919,7 @@ def run(ck):
            "all" if ck.tier == "thorough" else "8",
            SERVICE_OPTS, PORT_OPTS,
            "all 9025 x 6 option settings on 8 WSDLs" if ck.tier == "thorough"
-           else "a sixth of the 9025 x 2 option settings on 3 WSDLs",
+           else "a tenth of the 9025 x 2 option settings on 3 WSDLs",
            len(hist_meta)))
     ck.exhaustive = ck.tier == "thorough"
 
